@@ -9,7 +9,9 @@ CONSTANTS PluginLists,      \* the configurations explored: sequences of plugin 
           OpKinds,          \* operation shapes: "one_field", "many_fields", "union", "fragment", "scalar", "arguments", "subscription"
           Deviations        \* {"ops_module_only_with_init"} = seeded: operations module written only when __init__ has a body
 
-SingleTopLevel(k) == k # "many_fields"
+\* __typename selected at the root is a top-level field like any other ("typename_and_field": two fields, "only_typename":
+\* one); fields that reach the root class through a fragment on the root type count as well ("root_fragment_two_fields")
+SingleTopLevel(k) == k \notin {"many_fields", "typename_and_field", "root_fragment_two_fields"}
 
 VARIABLES plist, kind, phase,
           ret,            \* what the client method returns: "full_model" | "single_field"
